@@ -42,8 +42,15 @@ ZERO_WIDTH = [('linear', 1.0, (0.3, 0.3), 0.0), ('cubic', 1e3, (-2.0, -2.0), 0.0
 HUGE_LANES = [('linear', 1.0, (0.0, 4e12), 0.731), ('cubic', 1e-30, (-1e9, 3e9), 0.5), ('arctan', 1.0, (1e10, 2e10), 0.1)]
 
 
+# lanes with a PLATEAU of roots (a dead zone around `root`): the function is 0 on the whole bracket, end points included
+# ('plateau-all'), or on the middle 40 % of it ('plateau-part'); any point of the bracket where f is exactly 0 is a root
+FAMS_ALL = FAMS + ('plateau-all', 'plateau-part')
+PLATEAU = [('plateau-all', 1.0, (0.0, 1.0), 0.5), ('plateau-all', 1e6, (-5.0, 5.0), 0.1), ('plateau-all', 1e-6, (2.0, 2.5), 1.0),
+           ('plateau-part', 1.0, (0.0, 1.0), 0.5), ('plateau-part', 1e3, (-1e3, 1e3), 0.731)]
+
+
 def lane_arrays(lanes):
-    fam = np.array([FAMS.index(l[0]) for l in lanes])
+    fam = np.array([FAMS_ALL.index(l[0]) for l in lanes])
     s = np.array([l[1] for l in lanes])
     a = np.array([l[2][0] for l in lanes])
     b = np.array([l[2][1] for l in lanes])
@@ -60,7 +67,8 @@ def make_f(lanes):
         x = np.asarray(x, float)
         t = (x - root)
         with np.errstate(all='ignore'):
-            vals = [s * t, s * t ** 3, s * np.tanh(t / (w / 10)), s * np.expm1(t / (w / 10)), s * np.arctan(t)]
+            vals = [s * t, s * t ** 3, s * np.tanh(t / (w / 10)), s * np.expm1(t / (w / 10)), s * np.arctan(t),
+                    s * (t - np.clip(t, -2 * w, 2 * w)), s * (t - np.clip(t, -0.2 * w, 0.2 * w))]
         return np.choose(fam, vals)
     return f, a, b, root, w
 
@@ -116,6 +124,10 @@ def lane_ok(solver, x, lanes, meta):
     else:
         with np.errstate(all='ignore'):
             near = (np.abs(x - root) <= 1e-9 * w) | (f(x) == 0)
+    plateau = np.array([l[0].startswith('plateau') for l in lanes])
+    if plateau.any():
+        with np.errstate(all='ignore'):
+            near = np.where(plateau, f(x) == 0, near)
     return inside & near
 
 
@@ -201,6 +213,15 @@ def run_case(case):
                     check(solver, [lane, z], lambda i: f'core lane {k} first, zero-width bracket second')
                     r.state((solver, 'zero-width', z, k))
                 check(solver, [z] + core + [z], lambda i: 'zero-width brackets around the 60-lane core')
+        # plateaus of roots: f is 0 at BOTH ends of a bracket of positive width (or on its middle part)
+        for z in PLATEAU:
+            for solver in ('bisect', 'chandrupatla'):
+                check(solver, [z], lambda i: f'plateau lane {z} alone')
+                for k, lane in enumerate(core):
+                    check(solver, [z, lane], lambda i: f'plateau lane {z} first, core lane {k} second')
+                    check(solver, [lane, z], lambda i: f'core lane {k} first, plateau lane {z} second')
+                    r.state((solver, 'plateau', z, k))
+                check(solver, [z] + core + [z], lambda i: f'plateau lanes {z} around the 60-lane core')
         r.nontriv(len(ZERO_WIDTH) * 2 * len(core))
         r.hit('zero-width')
         r['sample'] = {'composition': 'zero-width bracket at a root', 'lanes': [list(map(str, z)) for z in ZERO_WIDTH]}
